@@ -2,7 +2,7 @@ import Ubx.Model.Message
 import Ubx.Model.Sources
 import Ubx.Model.Helpers
 import Ubx.Generated.Tables
-import Ubx.Proofs.CodeParse
+import Ubx.Model.PyHosts
 /-!
 # Line-protocol driver: one operation per input line, one answer per output line.
 The Python harness (tools/harness) sends the same operations to the real pyubx2 and diffs.
